@@ -19,7 +19,7 @@ from valida.datapath import DataPath
 
 META = {
     "rule": "(a) all prefix-closed path sets of <= n paths over {'a','b',0,'<k&\"'>',two 40-character keys differing in the middle,MapValue(),ListValue()} x 3 condition "
-            "assignments x 4 doc blocks; (b) a 7-rule tree (string and integer keys with rules of their own) x every and-combination (every order, 1-3 operands of a 15-condition "
+            "assignments x 4 doc blocks; (b) a 7-rule tree (string and integer keys with rules of their own) x every and-combination (every order, 1-3 operands of a 18-condition "
             "menu) + or / xor combinations at the root and at an inner node; every case x from_path in {none, every rule path} x "
             "nested in {False, True} x anchor_root in {None, 'root'} x heading_start_level in {1, 5}; (c) chains of 7-9 nested levels (one rule per prefix; keys and bare parts interleaved); a case is one (schema, from_path); non-trivial = the tree "
             "has >= 2 nodes and all structural, required-flag and HTML checks ran",
@@ -43,6 +43,7 @@ MENU = [
     L("Value", "allowed_keys", "a", "b", MARK, LONG1, LONG2), L("Value", "required_keys", "a", MARK, LONG2), L("Value", "keys_is_instance", str),
     L("Value", "required_keys", "b"),
     L("Value", "required_keys", 0, "a"), L("Value", "allowed_keys", 0, 1, "a", "b"),      # integer keys named by key conditions
+    L("ValueLength", "equal_to", 0), L("Value", "in_", []), L("ValueLength", "in_", [0]),  # falsy arguments
 ]
 DOCS = [
     None,
